@@ -6,13 +6,13 @@ CONSTANTS Coef2 <- R22
  CoefA3 <- S202
  CoefB3 <- R11
  Const3 <- R11
- B = 20
- BU = 10
- BS = 8
- BS0 = 13
+ B = 16
+ BU = 7
+ BS = 6
+ BS0 = 11
  K = 12
- Emitting = TRUE
 INVARIANT TypeOK
+INVARIANT OrigInClass
 INVARIANT RealSound
 INVARIANT ContrSound
 INVARIANT DarkSound
@@ -20,5 +20,5 @@ INVARIANT ExactComplete
 INVARIANT FMExact
 INVARIANT BoxStable
 INVARIANT SpecialisationOK
-POSTCONDITION Emit
+POSTCONDITION Covered
 CHECK_DEADLOCK FALSE
